@@ -132,6 +132,9 @@ func cmdCheck(args []string) int {
 		fmt.Println("ENGINE-ERROR: no jobs for tier", *tier)
 		return 2
 	}
+	if *only == "" {
+		os.RemoveAll(filepath.Join(verifRoot, "replays", id))
+	}
 	// native replay binaries are built while the exploration runs
 	rp := newReplayer(openList)
 	if !*noReplay {
@@ -171,6 +174,7 @@ func cmdCheck(args []string) int {
 	unconfirmed := 0
 	var lines []string
 	knownSeen := map[string]*Violation{}
+	knownJob := map[string]JobSpec{}
 	for _, j := range jobs {
 		if verbose {
 			printJobBrief(j)
@@ -192,6 +196,7 @@ func cmdCheck(args []string) int {
 		for fid, v := range j.known {
 			if _, ok := knownSeen[fid]; !ok {
 				knownSeen[fid] = v
+				knownJob[fid] = j.Spec
 			}
 		}
 		ev.addJob(j)
@@ -250,8 +255,27 @@ func cmdCheck(args []string) int {
 			continue
 		}
 		if v, ok := knownSeen[f.ID]; ok {
-			fmt.Printf("KNOWN-FINDING: property=%s %s %s (witness: %s)\n", id, f.ID, f.What, strings.TrimSpace(fmtInputs(v.Inputs)))
-			ev.KnownReported = append(ev.KnownReported, f.ID)
+			status := "not replayed"
+			if !*noReplay {
+				// replay the witness with the finding NOT excused: the plain assertion must fail natively
+				file := filepath.Join(verifRoot, "replays", id, "known-"+f.ID+".json")
+				var others []string
+				for _, o := range openList {
+					if o != f.ID {
+						others = append(others, o)
+					}
+				}
+				rp2 := *rp
+				rp2.knownOpen = others
+				rp2.writeReplay(file, id, knownJob[f.ID], v)
+				status = rp.confirm(knownJob[f.ID], v, file)
+			}
+			if status == "confirmed" || status == "not-replayable" || *noReplay {
+				fmt.Printf("KNOWN-FINDING: property=%s %s %s (witness %s on the real build: %s)\n", id, f.ID, f.What, status, strings.TrimSpace(fmtInputs(v.Inputs)))
+				ev.KnownReported = append(ev.KnownReported, f.ID)
+			} else {
+				engineErrors = append(engineErrors, fmt.Sprintf("witness of known finding %s did not reproduce natively: %s", f.ID, status))
+			}
 		}
 	}
 	ev.finish(agg, validated, violations, unconfirmed, engineErrors, time.Since(t0))
